@@ -2,11 +2,13 @@
 EXTENDS StreamParser, Json, IOUtils, TLC
 (* C04: whatever a parser returns as data equals what the independent reading of the grammar extracts from the same
    bytes (and that reading accepts them). Rejections by the implementation cannot violate C04. *)
-StreamOk(ev) == LET ra == Reassemble(ev) IN ra.wf /\ ra.err = <<>> /\ ~ra.open /\ \A k \in 1..Len(ev) : ev[k][1] \in {1, 2, 3}
+\* the streaming parser "returns data" when its iteration ends without an error item: then the input must be a valid
+\* file and the events must reassemble - completely, no message left open - to what the grammar extracts
+NoErrorItem(ev) == \A k \in 1..Len(ev) : ev[k][1] \in {1, 2, 3}
 Mon(r) ==
-  LET o == ParseFile(r.x) IN
+  LET o == ParseFile(r.x) ra == Reassemble(r.ev) IN
   /\ (r.c[1] = 1 => o.ok /\ r.c = <<1, o.v>>)
-  /\ (StreamOk(r.ev) => o.ok /\ Reassemble(r.ev).msgs = o.v)
+  /\ (NoErrorItem(r.ev) => o.ok /\ ra.wf /\ ra.err = <<>> /\ ~ra.open /\ ra.msgs = o.v)
 
 \* ---- batch judge loop (generated boilerplate, see bin/vf) ---------------
 Recs == ndJsonDeserialize(IOEnv.VF_TRACE)
